@@ -287,6 +287,7 @@ fn eval_c18(case: &Case, acc: &Acc) -> Vec<Violation> {
             }
         }
     }
+    acc.fallback(|| json!({"grammar": short}));
     if acc.want_sample() && same_text_styles {
         acc.sample(json!({"grammar": short, "terminal_numbering": num.iter().enumerate().map(|(i, (id, st))| format!("{} = {:?} raw={} la={:?} states={:?}", i + 5, id.text, id.raw, id.la, st)).collect::<Vec<_>>()}));
     }
@@ -994,6 +995,7 @@ fn eval_c25(case: &Case, acc: &Acc) -> Vec<Violation> {
         }
     }
     acc.distinct(&case.par);
+    acc.fallback(|| json!({"grammar": short, "stages": stages.len()}));
     if acc.want_sample() && case.par.contains("%scanner") {
         acc.sample(json!({"grammar": short, "stages": stages.len()}));
     }
@@ -1178,6 +1180,7 @@ fn eval_c33(case: &Case, acc: &Acc) -> Vec<Violation> {
             v.class = format!("{}({c})", v.class);
         }
     }
+    acc.fallback(|| json!({"grammar": short}));
     if acc.want_sample() && out.is_empty() {
         acc.sample(json!({"grammar": short}));
     }
